@@ -108,12 +108,16 @@ structure RunShape where
   recovers : Bool       -- a deferred `recover()` in `Run` turns a panic inside the native action into an error return
   evmAfterWrite : Bool  -- on some path through the closure an EVM call on the same StateDB follows a keeper write
   dropsActionError : Bool  -- the error `ExecuteNativeAction` returns is overwritten / never tested: `Run` goes on and reports success
+  /-- round 4: a keeper call on `stateDB.Context()` in the ERROR branch after `ExecuteNativeAction` (the snapshot has been
+  put back, the write that follows is not journaled and the failing frame holds no native journal entry) -/
+  outerOnError : Bool := false
   deriving DecidableEq, Repr
 
 /-- the shapes for which a precompile call is all-or-nothing (`Props/C09.lean`: sufficient, and each condition necessary).
 A keeper write AFTER the native action is not in the list: it sits above the action's journal entry, whose snapshot
 restores the store as it was before the action — the order of the two statements is what matters. -/
-def RunShape.clean (sh : RunShape) : Bool := !sh.outerBefore && !sh.recovers && !sh.evmAfterWrite && !sh.dropsActionError
+def RunShape.clean (sh : RunShape) : Bool :=
+  !sh.outerBefore && !sh.recovers && !sh.evmAfterWrite && !sh.dropsActionError && !sh.outerOnError
 def RunShape.tidy : RunShape :=
   { outerBefore := false, outerAfter := false, recovers := false, evmAfterWrite := false, dropsActionError := false }
 
@@ -208,7 +212,7 @@ def runPre (ev : Eval N) (roCtx roCall : Bool) (gas req : Nat) (sh : RunShape) (
   | (.err, s1) =>
     -- `ExecuteNativeAction` has put the snapshot back; a `Run` that loses the error carries on as after a success
     if sh.dropsActionError then (.ok, { s1 with native := s0.native }, gas - req)
-    else (.fail, { s1 with native := s0.native }, 0)
+    else (.fail, (if sh.outerOnError then ({ s1 with native := s0.native } : St N).poke out else { s1 with native := s0.native }), 0)
   | (.panic, s1) => if sh.recovers then (.fail, s1, 0) else (.abort, s1, 0)
 
 /-- what `evm.Call*` and the caller's code do with the callee's result: `inl` = caller continues, `inr` = caller halts -/
